@@ -13,10 +13,10 @@ use std::process::{Command, Stdio};
 pub fn meta() -> Meta {
     Meta {
         id: "C16",
-        rule: "seeded programs from the grammar generator (every instruction form and operand shape, all numeric values incl. boundaries, labels of any length and case, comments with arbitrary printable and Unicode content, long .DB/.DW lists exceeding the pad width, 0-40 labels, header comments, an eighth of them with a name defined twice) are parsed, rendered with Display and parsed again; the second AST must equal the first, line by line; the same for the translator's listing lines; and for the program pane of the real interactive session: sampled programs are loaded one after the other through the `load` command (headless driver), alternately under their own file name and under one file name whose content is replaced between the loads, and after every load the pane's lines must parse back to the program that was just loaded. distinct_nontrivial counts distinct (instruction shape, has-comment) line classes that went through the round trip",
+        rule: "seeded programs from the grammar generator (every instruction form and operand shape, all numeric values incl. boundaries, labels of any length and case, comments with arbitrary printable and Unicode content, long .DB/.DW lists exceeding the pad width, 0-40 labels, header comments, an eighth of them with a name defined twice) are parsed, rendered with Display and parsed again; the second AST must equal the first, line by line; the same for the translator's listing lines and for the source column of the byte-code listing (Display for ByteCode); and for the program pane of the real interactive session: sampled programs are loaded one after the other through the `load` command (headless driver), alternately under their own file name and under one file name whose content is replaced between the loads, and after every load the pane's lines must parse back to the program that was just loaded. distinct_nontrivial counts distinct (instruction shape, has-comment) line classes that went through the round trip",
         exhaustive: false,
         assumptions: vec!["the rendering under test is `format!(\"{}\", asm)`: header line plus one Display-rendered line per source line (the per-line rendering is what the TUI program pane and byte-code listings show)"],
-        floors: vec![("round_trips", 20_000), ("lines_round_tripped", 300_000), ("lines_with_unicode_comment", 5_000), ("long_data_lines", 500), ("programs_with_40_labels", 100), ("listing_round_trips", 5_000), ("programs_with_a_name_defined_twice", 10_000), ("pane_loads", 100), ("pane_reloads_of_an_edited_file", 40)],
+        floors: vec![("round_trips", 20_000), ("lines_round_tripped", 300_000), ("lines_with_unicode_comment", 5_000), ("long_data_lines", 500), ("programs_with_40_labels", 100), ("listing_round_trips", 5_000), ("byte_code_listing_round_trips", 5_000), ("programs_with_a_name_defined_twice", 10_000), ("pane_loads", 100), ("pane_reloads_of_an_edited_file", 40)],
     }
 }
 
@@ -96,6 +96,55 @@ pub fn round_trip(asm: &Asm, rep: &mut Report) -> Option<(String, String)> {
             for (l, _) in &bc.lines {
                 pane.push('\n');
                 pane.push_str(&format!("{}", l));
+            }
+            // the byte-code listing proper (Display for ByteCode): " <bytes> ; <line>" per source line,
+            // an empty line for a line without any text
+            match catch(|| format!("{}", bc)) {
+                Ok(listing) => {
+                    let mut src = String::from("#! mrasm");
+                    if let Some(c) = &asm.comment_after_shebang {
+                        src.push_str(&format!(" ; {}", c));
+                    }
+                    let mut n = 0;
+                    for l in listing.lines() {
+                        // strip colour escapes
+                        let mut plain = String::with_capacity(l.len());
+                        let mut it = l.chars();
+                        while let Some(ch) = it.next() {
+                            if ch == '\u{1b}' {
+                                for e in it.by_ref() {
+                                    if e == 'm' {
+                                        break;
+                                    }
+                                }
+                            } else {
+                                plain.push(ch);
+                            }
+                        }
+                        src.push('\n');
+                        if let Some(p) = plain.find("; ") {
+                            src.push_str(&plain[p + 2..]);
+                        } else if !plain.trim().is_empty() {
+                            return Some(("C16:byte-code-listing-line-without-source".into(), format!("listing line {} has no '; <source>' part: {:?}", n, plain)));
+                        }
+                        n += 1;
+                    }
+                    if n != asm.lines.len() {
+                        return Some(("C16:byte-code-listing-line-count".into(), format!("the byte-code listing has {} lines for {} source lines", n, asm.lines.len())));
+                    }
+                    match catch(|| AsmParser::parse(&src)) {
+                        Ok(Ok(b)) => {
+                            if b.lines != asm.lines {
+                                let i = b.lines.iter().zip(asm.lines.iter()).position(|(x, y)| x != y).unwrap_or(0);
+                                return Some(("C16:byte-code-listing-differs".into(), format!("line {} of the byte-code listing re-parses as {:?}, the program has {:?}", i, b.lines.get(i), asm.lines.get(i))));
+                            }
+                            rep.inc("byte_code_listing_round_trips");
+                        }
+                        Ok(Err(e)) => return Some(("C16:byte-code-listing-rejected".into(), format!("the source column of the byte-code listing is not accepted by the parser: {}", format!("{}", e).lines().take(5).collect::<Vec<_>>().join(" | ")))),
+                        Err(p) => return Some((format!("C16:panic-in-reparse:{}", p.site()), p.msg)),
+                    }
+                }
+                Err(p) => return Some((format!("C16:panic-in-format:{}", p.site()), p.msg)),
             }
             match catch(|| AsmParser::parse(&pane)) {
                 Ok(Ok(b)) => {
